@@ -402,10 +402,12 @@ META = {
     'level_text': ('Theorems about the Gallina model for ALL note lists, pedal timelines and total_time values (induction over '
                    'the stably sorted event list, no bound on sizes): every note keeps every field but its end, drum notes and '
                    'instruments without a pedal-down event are untouched, without any pedal-down event the result is the input, '
-                   'total_time never shrinks and covers every returned note, quantized input is rejected; for inputs in the '
-                   'property\'s quantifier (no same-pitch overlap) no note is dropped or shortened and every end time equals '
-                   'the declarative "held until release / restrike / last event" specification.  The model is tied to the code '
-                   'by a differential run and the same specification is evaluated on the implementation\'s output for every case.'),
+                   'total_time never shrinks and covers every returned note, quantized input is rejected; and for every input in '
+                   'the property\'s quantifier (start <= end, no same-pitch overlap or simultaneous start on an instrument) the '
+                   'returned notes are EXACTLY the declarative specification (sustain_refines_spec: each end is the original one '
+                   'if the instrument\'s pedal is up at that time, else the first later release / first restrike of the pitch at '
+                   'or after it / the last event), proved by a simulation invariant.  The model is tied to the code by a '
+                   'differential run, and the same specification is evaluated on the implementation\'s output for every case.'),
     'level_note': ('Trusted: Coq kernel; the hand-written model Model/Sustain.v (tied to the code by correspondence only: '
                    'sort stability, protobuf value equality in list.remove / RepeatedCompositeContainer.remove, the event-type '
                    'constants regenerated from the module each run); exact tick arithmetic stands for float comparisons on the '
